@@ -172,6 +172,33 @@ pub fn check_stream(seq: &[u8], k: usize) -> Option<(String, String)> {
     if ca != cb {
         return Some(("stream.canonical_multiset".into(), "canonical k-mer multisets of seq and revcomp(seq) differ".into()));
     }
+    // the pair relation must hold for every way of consuming the iterator (positional adaptors included)
+    if a.len() < 3000 {
+        let adapt = guarded(|| {
+            let sk: Vec<(u64, u64)> = KmerGenerator::new(seq, k).skip(1).step_by(2).collect();
+            let n3 = a.len() / 3;
+            let nth = KmerGenerator::new(seq, k).nth(n3);
+            let mut it = KmerGenerator::new(seq, k);
+            let _ = it.nth(1);
+            let after: Vec<(u64, u64)> = it.take(5).collect();
+            let last = KmerGenerator::new(seq, k).last();
+            (sk, nth, after, last)
+        });
+        match adapt {
+            Err(p) => return Some((panic_sig(&p), format!("iterator panicked under an adaptor: {}", p))),
+            Ok((sk, nth, after, last)) => {
+                let want_sk: Vec<(u64, u64)> = a.iter().skip(1).step_by(2).copied().collect();
+                let want_after: Vec<(u64, u64)> = a.iter().skip(2).take(5).copied().collect();
+                if sk != want_sk || nth != a.get(a.len() / 3).copied() || after != want_after || last != a.last().copied() {
+                    let bad_rev = sk.iter().chain(after.iter()).chain(nth.iter()).chain(last.iter()).any(|&(f, r)| r != model::rc_code(f, k));
+                    return Some((
+                        if bad_rev { "pair.reverse_component:adaptor".into() } else { "stream.adaptor".into() },
+                        "pairs delivered through skip / step_by / nth / last differ from the pairs of a plain pass".into(),
+                    ));
+                }
+            }
+        }
+    }
     // the canonical multiset must also be the reference one
     let mut cr = model::canonical_stream(seq, k);
     cr.sort_unstable();
